@@ -99,3 +99,5 @@ for _op in c17.OPS:
                bounds='two funded constant-product pools uA/uB and uB/uC, symbolic reserves, supplies, amounts, excess per denom',
                covers=['ok'], opts={'lazy_forks': True} if _route else {},
                replay=_replay(_op))(_ob_inv(_op))
+
+from . import lockdep   # noqa: E402,F401  (locked deposits: LP goes to the farm manager, reserves stay backed)
